@@ -24,6 +24,7 @@ import mdtraj as md  # noqa: E402
 A = 10.0
 NEEDS_TOP = {"xtc", "trr", "dcd", "nc", "mdcrd", "lammpstrj", "xyz", "dtr"}
 HAS_TIME = {"h5", "nc", "xtc", "trr", "gro", "dtr"}
+SQUEEZABLE = {"h5", "nc", "xtc", "trr", "dcd", "mdcrd", "lammpstrj", "dtr"}   # write() documents add_newaxis_on_deficient_ndim
 HAS_CELL = {"h5", "nc", "xtc", "trr", "gro", "dtr", "dcd", "mdcrd", "lammpstrj", "pdb"}
 
 
@@ -48,8 +49,15 @@ def arrays(ids, n_atoms):
     return xyz, time, lengths, angles
 
 
-def do_write(f, fmt, ids, cell, time, n_atoms):
+def do_write(f, fmt, ids, cell, time, n_atoms, squeeze=False):
+    """squeeze: a single frame handed over without the leading frame axis (xyz (n_atoms, 3), scalar time, cell (3,)),
+    the shape in which mdtraj's reporters call write() once per report"""
     xyz, t, L, ang = arrays(ids, n_atoms)
+    if squeeze and len(ids) == 1 and fmt in SQUEEZABLE:
+        xyz, t, L, ang = xyz[0], t[0], L[0], ang[0]
+        if fmt in ("xtc", "trr"):
+            f.write(xyz=xyz, time=t if time else None, box=np.diag(L) if cell else None)
+            return
     if fmt in ("xtc", "trr"):
         box = None
         if cell:
@@ -90,7 +98,131 @@ def do_write(f, fmt, ids, cell, time, n_atoms):
         raise RuntimeError("fmt " + fmt)
 
 
+# ------------------------------------------------------------------ the live-output path (mdtraj/reporters)
+class _Quantity:
+    """stand-in for openmm.unit.Quantity: the numbers are already in the unit the file object asks for"""
+
+    def __init__(self, v):
+        self._v = np.asarray(v)
+
+    def __getitem__(self, k):
+        return _Quantity(self._v[k])
+
+    def value_in_unit(self, _unit):
+        return self._v
+
+
+class _Time(float):
+    unit = "picoseconds"
+
+    def value_in_unit(self, _unit):
+        return float(self)
+
+
+class _Units:
+    def __getattr__(self, name):
+        return name
+
+
+class _State:
+    def __init__(self, i, n_atoms, scale):
+        xyz, t, L, _ang = arrays([i], n_atoms)
+        self._xyz, self._t, self._box = xyz[0] * scale, float(t[0]), np.diag(L[0]) * scale
+
+    def getPositions(self, asNumpy=True):
+        return _Quantity(self._xyz)
+
+    def getTime(self):
+        return _Time(self._t)
+
+    def getPeriodicBoxVectors(self, asNumpy=True):
+        return _Quantity(self._box)
+
+
+class _System:
+    def __init__(self, n):
+        self._n = n
+
+    def getNumParticles(self):
+        return self._n
+
+
+class _Simulation:
+    def __init__(self, n_atoms):
+        self.currentStep = 0
+        self.system = _System(n_atoms)
+        self.topology = None
+
+
+def make_reporter(fmt, path, cell, time, append=False):
+    """DCDReporter / NetCDFReporter / XTCReporter on `path`, with OpenMM's unit module replaced by a stand-in (OpenMM is
+    not installed; the reporters only use it to strip units).  HDF5Reporter needs an OpenMM topology: not driven."""
+    import mdtraj.reporters.basereporter as br
+    import mdtraj.reporters.xtcreporter as xr
+    br.OPENMM_IMPORTED = True
+    br.units = _Units()
+    xr.OPENMM_IMPORTED = True
+    xr.units = _Units()
+    import mdtraj.reporters.netcdfreporter as nr
+    if hasattr(nr, "OPENMM_IMPORTED"):
+        nr.OPENMM_IMPORTED = True
+    from mdtraj.reporters import DCDReporter, NetCDFReporter, XTCReporter
+    if fmt == "dcd":
+        return DCDReporter(path, 1)
+    if fmt == "nc":
+        return NetCDFReporter(path, 1, time=time, cell=cell)
+    if fmt == "xtc":
+        return XTCReporter(path, 1, append=True) if append else XTCReporter(path, 1)
+    raise RuntimeError("no reporter for " + fmt)
+
+
+def run_reporter_ops(case, path):
+    """the same op list, driven through a reporter: every single-frame write op is one report() (which writes one
+    frame without the frame axis and flushes), flush ops are the reporter's own business, close closes the reporter"""
+    fmt = case["fmt"]
+    out = []
+    first = [op for op in case["ops"] if op[0] == "write"]
+    cell, time = (first[0][2], first[0][3]) if first else (True, True)
+    append = case.get("mode", "w") == "a"
+    if append:
+        # an earlier run wrote and closed these frames; XTCReporter(append=True) is to continue the file
+        with md.open(path, "w") as f0:
+            do_write(f0, fmt, case["pre"], True, True, 4)
+    rep = make_reporter(fmt, path, cell, time, append=append)
+    sim = _Simulation(4)
+    scale = A if rep._traj_file.distance_unit == "angstroms" else 1.0
+    closed = False
+    for op in case["ops"]:
+        k = op[0]
+        try:
+            if k == "write":
+                for i in op[1]:
+                    sim.currentStep += 1
+                    rep.report(sim, _State(i, op[4], scale))
+            elif k == "close":
+                rep.close()
+                closed = True
+            elif k == "crash":
+                sys.stdout.flush()
+                if op[1] == "exit":
+                    os._exit(9)
+                os.kill(os.getpid(), signal.SIGKILL)
+            out.append({"ok": True})
+        except BaseException as e:  # noqa: BLE001
+            if isinstance(e, (KeyboardInterrupt, SystemExit)):
+                raise
+            out.append({"err": type(e).__name__, "msg": str(e)[:120]})
+    if not closed:
+        try:
+            rep.close()
+        except Exception as e:  # noqa: BLE001
+            out.append({"err": type(e).__name__, "msg": "close: " + str(e)[:100]})
+    return out
+
+
 def run_ops(case, path):
+    if case.get("via") == "reporter":
+        return run_reporter_ops(case, path)
     fmt = case["fmt"]
     out = []
     if case.get("mode", "w") == "a":
@@ -104,7 +236,7 @@ def run_ops(case, path):
         k = op[0]
         try:
             if k == "write":
-                do_write(f, fmt, op[1], op[2], op[3], op[4])
+                do_write(f, fmt, op[1], op[2], op[3], op[4], squeeze=len(op) > 5 and bool(op[5]))
             elif k == "flush":
                 if hasattr(f, "flush"):
                     f.flush()
